@@ -268,6 +268,42 @@ class Adapter:
     def info(self):
         return None
 
+    def fix_call(self, c):
+        return c
+
+    BLANK = {}
+
+    def safe_state(self):
+        """state(), or an impossible observation when the globals are in a shape
+        the reader does not understand (then the correspondence fails closed)"""
+        try:
+            return self.state()
+        except Exception:       # noqa
+            return dict(self.BLANK)
+
+    def gen_call_near(self, rng, prev):
+        """A call that differs from the previous one in one or two parameters
+        (neighbours in the parameter lattice: where stale cache entries show)."""
+        new = self.gen_call(rng)
+        if prev is None or rng.random() < 0.35:
+            return new
+        c = dict(prev)
+        keys = [k for k in new if k != 'seed']
+        for k in rng.choice(keys, size=int(rng.integers(0, 3)), replace=False):
+            c[k] = new[k]
+        c['seed'] = new['seed']
+        return self.fix_call(c)
+
+    def gen_history(self, rng, length):
+        ops, prev = [], None
+        for _ in range(length):
+            op = self.gen_op(rng)
+            if op[0] == 'call':
+                op = ('call', self.gen_call_near(rng, prev))
+                prev = op[1]
+            ops.append(op)
+        return ops
+
     def reset_memory(self):
         """Put the module (and transform._basis_dir) in its import-time state."""
         import abel.transform as T
@@ -292,6 +328,7 @@ class Adapter:
 
 
 class Daun(Adapter):
+    BLANK = dict(bs_prm=[98], bs_size=[98], tr_prm=[98], gdir=98, listing=[])
     name = 'daun'
     coq_module = 'CacheDaun'
     file_prefix = 'daun_basis_'
@@ -348,6 +385,11 @@ class Daun(Adapter):
         bd = [None, '', 1, 1, 2, BADDIR][rng.integers(6)] if rng.random() < 0.8 else 1
         return dict(n=n, degree=deg, reg=reg, direction=direction, bd=bd,
                     dr=float(rng.choice([1.0, 0.5])), seed=int(rng.integers(1 << 30)))
+
+    def fix_call(self, c):
+        if c['reg'] == 'nonneg':
+            c['direction'] = 'inverse'
+        return c
 
     def gen_op(self, rng):
         u = rng.random()
@@ -430,6 +472,7 @@ class Daun(Adapter):
 
 
 class Basex(Adapter):
+    BLANK = dict(bs_prm=[98], bs_rows=[98], trf_prm=[98], tri_prm=[98], gdir=98, listing=[])
     name = 'basex'
     coq_module = 'CacheBasex'
     file_prefix = 'basex_basis_'
@@ -549,6 +592,7 @@ class Basex(Adapter):
 
 
 class Dasch(Adapter):
+    BLANK = dict(method=[98], size=[98], source=98, gdir=98, listing=[])
     name = 'dasch'
     coq_module = 'CacheDasch'
     file_prefix = ('two_point_basis_', 'three_point_basis_', 'onion_peeling_basis_')
@@ -666,6 +710,7 @@ class Dasch(Adapter):
 
 
 class Linbasex(Adapter):
+    BLANK = dict(los=[], pas=[], stepclip=[98], shape=[98], gdir=98, files=98)
     name = 'linbasex'
     coq_module = 'CacheLinbasex'
     file_prefix = 'linbasex_basis_'
@@ -794,6 +839,8 @@ class Linbasex(Adapter):
 
 
 class Rbasex(Adapter):
+    BLANK = dict(prm=[98], dst=98, ibs=False, bs_prm=[98], nbs=[98], has_tri_full=False, has_trf=False,
+                 tri_prm=[98], gdir=98, files=[])
     name = 'rbasex'
     coq_module = 'CacheRbasex'
     file_prefix = 'rbasex_basis_'
@@ -906,6 +953,13 @@ class Rbasex(Adapter):
         if u < 0.96:
             return ('seed', d, key, 'good')
         return ('remove', d, key)
+
+    def fix_call(self, c):
+        if c['wid'] and self.WSHAPE[c['wid']] != self.SHAPES[c['shape']]:
+            c['wid'] = 0
+        if c['reg'] == 1 and (c['direction'] != 'inverse' or (self.eff_odd(c) and c['order'] > 1)):
+            c['reg'] = 0
+        return c
 
     def weights_for(self, c):
         """The weights object of a call.  In the process that runs histories the
@@ -1174,7 +1228,7 @@ def run_history(adapter, worker, ops, refs=True):
             else:
                 agree = (code == fcode)
         recs.append(dict(op=op, aux=aux, out=out, ref=ref, code=code, fresh_code=fcode, agree=agree,
-                         state=adapter.state(), damage_before=present))
+                         state=adapter.safe_state(), damage_before=present))
     return recs
 
 
